@@ -1,11 +1,234 @@
 (** C06 -- Lazy sequences realize each element once, only on demand, safely shared.
-    (preliminary: table obligations only) *)
-From Coq Require Import List Bool NArith.
+    Only statements, each closed by [exact], and Print Assumptions.
+
+    Two models of rust/src/basilisp_native/seq.rs (tied to each other and to the code by the check):
+    - C06/Machine.v : threads, the re-entrant cell mutex, the GIL (small-step, all interleavings);
+    - C06/LazySeq.v : one thread, with the generators of core.lpy (big-step). *)
+From Coq Require Import List Bool NArith Arith.
 Import ListNotations.
-From Verif Require Import Gen.Tables.
+From Verif Require Import Gen.Tables C06.Base C06.LazySeq C06.Spec C06.Machine
+  C06.ProofsBig C06.ProofsLazy C06.ProofsMap C06.ProofsTake
+  C06.ProofsMachine C06.ProofsConc C06.ProofsLock C06.ProofsAgree C06.Refuted.
+
+(* ---------------------------------------------------------------------------------------------- *)
+(** * What the translator read off seq.rs on this run *)
 
 Theorem C06_table_shapes :
   lazyseq_state_shape = 1%N /\ lazyseq_seq_shape = 1%N /\ lazyseq_sequence_shape = 1%N.
 Proof. repeat split; reflexivity. Qed.
+(** the error path of _compute_seq stores Initialized(gen) again (repair F-06b) *)
+Theorem C06_table_error_path_restores : lazyseq_restore_on_error = true.
+Proof. reflexivity. Qed.
+(** seq.rs takes the cell mutex with a blocking lock() while holding the GIL (F-06) *)
+Theorem C06_table_lock_keeps_gil : lazyseq_lock_keeps_gil = true.
+Proof. reflexivity. Qed.
+
+(* ---------------------------------------------------------------------------------------------- *)
+(** * Every interleaving, any number of threads (Machine.v)
+    [reachable restore st0 st]: st is reached from st0 by some list of scheduler labels -- steps of the GIL
+    holder, GIL hand-overs where Python code can lose it, and also [LPreempt], a hand-over at ANY point,
+    which the real code never does: the safety theorems do not rest on where the GIL is released. *)
+
+(** the generator of a cell is called at most once more than it has raised (at most once at all with the
+    pinned error path); at most one activation runs at a time, over all threads, and only while the cell
+    is Computing.  The only steps that start an activation are [E_seq_start] / [E_comp_start]
+    (ProofsMachine.stepf_eff): from Initialized, with the mutex taken in the same step. *)
+Theorem C06_producer_at_most_once : forall restore st0 st,
+  fresh_state st0 -> reachable restore st0 st ->
+  forall c k, nth_error (mcells st) c = Some k ->
+    (ncalls k <= 1 + nthrows k)%N /\ (restore = false -> (ncalls k <= 1)%N) /\
+    act st c <= 1 /\
+    (forall t th g b, nth_error (thr st) t = Some th -> In (KCompRet c g b) (stk th) -> cst k = Computing).
+Proof. exact ProofsConc.producer_at_most_once. Qed.
+
+(** a thread inside the producer of c or inside the loop of seq(c) owns the mutex of c; nobody else is
+    inside seq / _compute_seq of c *)
+Theorem C06_producer_runs_under_the_mutex : forall restore st0 st,
+  fresh_state st0 -> reachable restore st0 st ->
+  forall t th c fr, nth_error (thr st) t = Some th -> In fr (stk th) -> 1 <= hold c fr ->
+    (exists n, nth_error (mlocks st) c = Some (Some (t, n))) /\
+    (forall t' th', t' <> t -> nth_error (thr st) t' = Some th' -> hcnt c (stk th') = 0).
+Proof. exact ProofsAgree.producer_runs_under_the_mutex. Qed.
+
+(** whatever seq(c) has returned to a consumer (a thread that is not itself in the middle of realizing a
+    cell) is what the cell holds from then on; any two consumers of one cell got the same object.
+    For the working tree's error path (restore = true). *)
+Theorem C06_consumers_agree : forall st0 st,
+  fresh_state st0 -> reachable true st0 st ->
+  (forall c o, In (c, o) (glog st) -> m_cst st c = Some (Realized o)) /\
+  (forall c o1 o2, In (c, o1) (glog st) -> In (c, o2) (glog st) -> o1 = o2).
+Proof. exact ProofsAgree.consumers_agree. Qed.
+
+(** the initial states of the correspondence are fresh (non-vacuity of the three theorems above) *)
+Example C06_initial_states_are_fresh : forall scripts its nev roots progs,
+  fresh_state (init_m scripts its nev roots progs).
+Proof. exact ProofsConc.fresh_init_m. Qed.
+
+(** F-06.  "Concurrent consumers never deadlock" is FALSE: a reachable state in which no thread can take
+    a step the code can take, although not every thread has finished.  T0 is inside the producer of cell 0,
+    parked on an Event with the GIL released; T1 touches cell 0 and blocks on the mutex holding the GIL. *)
+Theorem C06_deadlock_refuted : forall restore,
+  exists st, run_labels restore w_dead_sched w_dead_init = Some st /\ stuck restore st /\ all_finished st = false.
+Proof. exact Refuted.deadlock_witness. Qed.
+(** the same with an ordinary producer that is merely pre-empted inside its Python body *)
+Theorem C06_deadlock_plain_producer_refuted : forall restore,
+  exists st, run_labels restore w_dead2_sched w_dead2_init = Some st /\ stuck restore st /\ all_finished st = false.
+Proof. exact Refuted.deadlock_witness_plain_producer. Qed.
+(** diagnosis: were the GIL given up while waiting for the mutex, that run completes and both agree *)
+Example C06_deadlock_needs_the_gil :
+  exists st, run_labels true (w_dead2_sched ++
+                [LPreempt 1; LAcq 0; LRun 0; LRun 0; LRun 0; LRun 0; LRel 0; LAcq 1; LRun 1; LRun 1]) w_dead2_init = Some st
+             /\ all_finished st = true
+             /\ map (fun th => tobs th) (thr st) = [[BVal (Some 1%N)]; [BVal (Some 1%N)]]
+             /\ map ncalls (mcells st) = [1%N].
+Proof. exact Refuted.deadlock_goes_away_if_lock_released_the_gil. Qed.
+
+(* ---------------------------------------------------------------------------------------------- *)
+(** * One thread (LazySeq.v): re-entrancy and exceptions *)
+
+(** a producer that looks at a cell which is being computed (its own) sees it empty; nothing changes *)
+Theorem C06_reentrant_sees_empty : forall restore f s c k,
+  get s c = Some k -> cst k = Computing ->
+  ev restore (S (S f)) (CSeq c) s = (s, Ok ONil).
+Proof. exact ProofsBig.reentrant_sees_empty. Qed.
+Theorem C06_reentrant_touch_in_script : forall restore f s c k l,
+  get s c = Some k -> cst k = Computing ->
+  ev restore (S (S (S f))) (CScript (ATouch c :: l)) s = ev restore (S (S f)) (CScript l) (note_seen s c true).
+Proof. exact ProofsBig.touch_own_cell. Qed.
+Example C06_reentrant_example :
+  let '(s', obs) := do_ops true F [OpFirst 0; OpFirst 0] [OLazy 0]
+                           (init_st [[ATouch 0; ARet (OCons 7 ONil)]] [] 0) [] in
+  obs = [BVal (Some 7%N); BVal (Some 7%N)] /\ seen s' = [(0, true)] /\ map ncalls (heap s') = [1%N].
+Proof. exact Refuted.reentrant_example. Qed.
+
+(** the working tree's error path: after ANY consumption history -- operations that returned and
+    operations that raised alike -- no cell is left Computing (so no later look mistakes it for empty) *)
+Theorem C06_exception_leaves_no_cell_computing : forall fuel ops regs s acc s' obs,
+  do_ops true fuel ops regs s acc = (s', obs) -> ~ In BBad obs ->
+  (forall c, comp s c = false) -> (forall c, comp s' c = false).
+Proof. exact ProofsBig.do_ops_quiet. Qed.
+(** ... and the failed cell holds the very generator it had, to be called again by the next look *)
+Theorem C06_failed_producer_is_retried : forall f s c k g s',
+  get s c = Some k -> cst k = Initialized g ->
+  ev true (S f) (CCompute c) s = (s', Exn) ->
+  exists k', get s' c = Some k' /\ cst k' = Initialized g.
+Proof. exact ProofsBig.failed_producer_restored. Qed.
+Example C06_exception_example :
+  let '(s', obs) := do_ops true F w_exn_ops [OLazy 0] (init_st w_exn_cells [] 0) [] in
+  obs = [BExn 1; BExn 1; BExn 1] /\ comp s' 0 = false /\ map ncalls (heap s') = [3%N].
+Proof. exact Refuted.exception_repaired_shape. Qed.
+
+(** F-06b, the pinned shape (`gen.call0(py)?`): the producer raises once, every later look answers nil, the
+    cell stays Computing; the reference semantics raises three times *)
+Theorem C06_exception_corrupts_refuted :
+  let '(s', obs) := do_ops false F w_exn_ops [OLazy 0] (init_st w_exn_cells [] 0) [] in
+  obs = [BExn 1; BKind 0; BVal None] /\ comp s' 0 = true /\ map ncalls (heap s') = [1%N]
+  /\ snd (s_do_ops F w_exn_ops [OLazy 0] (s_init w_exn_cells [] 0) []) = [BExn 1; BExn 1; BExn 1].
+Proof. exact Refuted.exception_corrupts_old_shape. Qed.
+
+(** F-06c (open): A returns lazy seq B, B looks at A and raises: A is an empty seq for ever *)
+Theorem C06_corecursive_exception_refuted :
+  let '(s', obs) := do_ops true F w_corec_ops [OLazy 0] (init_st w_corec_cells [] 0) [] in
+  obs = [BExn 1; BKind 0; BKind 0]
+  /\ map cst (heap s') = [Realized ONil; Initialized (GScript [ATouch 0; AThrow])]
+  /\ seen s' = [(0, true)]
+  /\ snd (s_do_ops F w_corec_ops [OLazy 0] (s_init w_corec_cells [] 0) []) = [BExn 1; BExn 1; BExn 1].
+Proof. exact Refuted.corecursive_exception. Qed.
+
+(** F-06d (open): (concat a b) where a's producer raises: raises once, then looks like the END *)
+Theorem C06_concat_exception_truncates_refuted :
+  let (s1, regs) := build_roots w_concat_roots (init_st w_exn_cells [] 0) in
+  let '(s', obs) := do_ops true F w_concat_ops regs s1 [] in
+  let (t1, sregs) := s_build_roots w_concat_roots (s_init w_exn_cells [] 0) in
+  obs = [BExn 1; BVal None; BNum 0]
+  /\ snd (s_do_ops F w_concat_ops sregs t1 []) = [BExn 1; BExn 1; BExn 1].
+Proof. exact Refuted.concat_exception_truncates. Qed.
+
+(* ---------------------------------------------------------------------------------------------- *)
+(** * Nothing is computed ahead of demand (LazySeq.v)
+    [chain_at vs b j s]: of the instrumented source chain at b (cell b+i returns (cons v_i (lazy b+i+1)), the
+    cell after the last returns nil) exactly the first j producers have run, once each.
+    [walk restore fuel m cur acc s]: m steps of seq.rs's SeqIterator from cur (what count / nth / iteration /
+    doseq do); first / rest on position k are its k-th step. *)
+
+(** a realized cell costs nothing *)
+Theorem C06_memoised : forall restore f s c k o,
+  get s c = Some k -> cst k = Realized o -> ev restore (S f) (CSeq c) s = (s, Ok o).
+Proof. exact ProofsLazy.realized_seq. Qed.
+
+(** (lazy-seq ...) chains: m elements run m producers (lookahead 0) *)
+Theorem C06_no_overrealization_lazy_seq : forall restore f vs b m j s acc,
+  chain_at vs b j s -> j <= length vs ->
+  exists s',
+    walk restore (S (S (S (S (S f))))) m (OLazy (b + j)) acc s =
+      (s', Ok (if Nat.leb (j + m) (length vs) then OLazy (b + j + m) else ONil),
+       rev (chain_vals vs j m) ++ acc)
+    /\ chain_at vs b (Nat.min (j + m) (S (length vs))) s'
+    /\ fcalls s' = fcalls s /\ iters s' = iters s.
+Proof. exact ProofsLazy.walk_chain. Qed.
+Example C06_chain_nonvacuous : forall vs its nev, chain_at vs 0 0 (init_st (chain_scripts vs 0) its nev).
+Proof. exact ProofsLazy.chain_at_init. Qed.
+
+(** (map f s): m elements run the first m source producers and apply f m times (lookahead 0) *)
+Theorem C06_no_overrealization_map : forall restore f fn vs b m j c s acc,
+  map_at fn vs b j c s -> j <= length vs ->
+  exists s' cur,
+    walk restore (S (S (S (S (S (S (S (S (S f))))))))) m (OLazy c) acc s =
+      (s', Ok cur, rev (map (app_fn fn) (chain_vals vs j m)) ++ acc)
+    /\ chain_at vs b (Nat.min (j + m) (S (length vs))) s'
+    /\ fcalls s' = (fcalls s + N.of_nat (Nat.min m (length vs - j)))%N.
+Proof. exact ProofsMap.walk_map. Qed.
+
+(** (take k s): m elements run min m k source producers; (take 0 s) never looks at s *)
+Theorem C06_no_overrealization_take : forall restore f vs b m k j c s acc,
+  take_at k vs b j c s -> j <= length vs ->
+  exists s' cur,
+    walk restore (S (S (S (S (S (S (S (S (S f))))))))) m (OLazy c) acc s =
+      (s', Ok cur, rev (chain_vals vs j (Nat.min m (N.to_nat k))) ++ acc)
+    /\ chain_at vs b (Nat.min (j + Nat.min m (N.to_nat k)) (S (length vs))) s'.
+Proof. exact ProofsTake.walk_take. Qed.
+
+(** (iterate f x): m elements apply f exactly m times -- ONE more than the m - 1 they need (lookahead 1:
+    the generator computes the next seed when it produces an element) *)
+Theorem C06_no_overrealization_iterate : forall restore f fn m x c s acc,
+  iter_at fn x c s ->
+  exists s' cur,
+    walk restore (S (S (S (S f)))) m (OLazy c) acc s = (s', Ok cur, rev (iterates fn x m) ++ acc)
+    /\ fcalls s' = (fcalls s + N.of_nat m)%N.
+Proof. exact ProofsMap.walk_iterate. Qed.
+
+(** seq over a Python iterator / iterator-seq (seq.rs Sequence): one pull per cell; m elements take exactly
+    the first m values out of the shared iterator *)
+Theorem C06_no_overrealization_iterator_seq : forall restore f it m vs c s acc,
+  seqit_at it c s -> nth_error (iters s) it = Some (ItList (map IVal vs)) ->
+  exists s' cur,
+    walk restore (S (S (S (S (S f))))) m (OLazy c) acc s = (s', Ok cur, rev (firstn m vs) ++ acc)
+    /\ nth_error (iters s') it = Some (ItList (map IVal (skipn m vs))).
+Proof. exact ProofsMap.walk_seqit. Qed.
 
 Print Assumptions C06_table_shapes.
+Print Assumptions C06_table_error_path_restores.
+Print Assumptions C06_table_lock_keeps_gil.
+Print Assumptions C06_producer_at_most_once.
+Print Assumptions C06_producer_runs_under_the_mutex.
+Print Assumptions C06_consumers_agree.
+Print Assumptions C06_initial_states_are_fresh.
+Print Assumptions C06_deadlock_refuted.
+Print Assumptions C06_deadlock_plain_producer_refuted.
+Print Assumptions C06_deadlock_needs_the_gil.
+Print Assumptions C06_reentrant_sees_empty.
+Print Assumptions C06_reentrant_touch_in_script.
+Print Assumptions C06_reentrant_example.
+Print Assumptions C06_exception_leaves_no_cell_computing.
+Print Assumptions C06_failed_producer_is_retried.
+Print Assumptions C06_exception_example.
+Print Assumptions C06_exception_corrupts_refuted.
+Print Assumptions C06_corecursive_exception_refuted.
+Print Assumptions C06_concat_exception_truncates_refuted.
+Print Assumptions C06_memoised.
+Print Assumptions C06_no_overrealization_lazy_seq.
+Print Assumptions C06_chain_nonvacuous.
+Print Assumptions C06_no_overrealization_map.
+Print Assumptions C06_no_overrealization_take.
+Print Assumptions C06_no_overrealization_iterate.
+Print Assumptions C06_no_overrealization_iterator_seq.
